@@ -310,6 +310,9 @@ func genCtlPayload(t *rt.Tape, label string) ctlPayload {
 func genDataPayload(t *rt.Tape, label string) dataPayload {
 	d := dataPayload{}
 	n := t.Range(0, 6, label+".nfiles")
+	if t.Bool(1, 50, label+".manyfiles") {
+		n = 150 + t.Draw(400, label+".manyfiles.n")
+	}
 	if n > 0 {
 		d.Files = append(d.Files, tarFile{Name: "./", Dir: true})
 	}
